@@ -394,6 +394,9 @@ func c06Child(c *mon.Child) {
 		c06FlatLexing(c)
 		c06Multiline(c)
 		c06Options(c)
+		c06Targets(c)
+		c06StructOfTargets(c)
+		c06ActionErrors(c)
 	}
 	// Part A: generated grammars x arbitrary bytes / soup / near-derivations
 	nInputs := c.N(60, 300)
@@ -555,7 +558,7 @@ func c06Child(c *mon.Child) {
 func init() {
 	Register(&mon.Spec{
 		ID:          "C06",
-		Rule:        "case = (grammar, input bytes, filename, entry point). Grammars: generated grammar programs (free of the library's own 'grammar bug' constructs) and 17 of the repository's example grammars compiled from a copy of their current sources. Inputs: renderings and token edits of derivations, arbitrary bytes incl. invalid UTF-8 and NUL, soup, the examples' own corpus files truncated/spliced/duplicated/mutated, the empty input, and synthesised flat (n=100 vs 10^4; thorough 10^5) and nested (10/20/300 levels) families. Monitors: panic flag on ParseString/ParseBytes/Parse and Parser.Lex; error oracle on every non-nil error (participle.Error; filename; offset within bounds; line/column recomputed from the offset; text = position + message; unexpected-token errors name the token Parser.Lex has at that position; nil AST iff lexing failed); Trace-depth monitor: constant depth on flat families, depth linear in nesting. Non-trivial: every non-empty input (each is judged by the full oracle). Distinct by (grammar, input).",
+		Rule:        "case = (grammar, input bytes, filename, entry point). Grammars: generated grammar programs (free of the library's own 'grammar bug' constructs) and 17 of the repository's example grammars compiled from a copy of their current sources. Inputs: renderings and token edits of derivations, arbitrary bytes incl. invalid UTF-8 and NUL, soup, the examples' own corpus files truncated/spliced/duplicated/mutated, the empty input, and synthesised flat (n=100 vs 10^4; thorough 10^5) and nested (10/20/300 levels) families. Monitors: panic flag on ParseString/ParseBytes/Parse and Parser.Lex; error oracle on every non-nil error (participle.Error; filename; offset within bounds; line/column recomputed from the offset; text = position + message; unexpected-token errors name the token Parser.Lex has at that position; nil AST iff lexing failed); Trace-depth monitor: constant depth on flat families, depth linear in nesting. Non-trivial: every non-empty input (each is judged by the full oracle). Distinct by (grammar, input). Additional fixed parts in batch 0: capture targets (user types implementing Capture / encoding.TextUnmarshaler with pointer and value receivers as field, pointer, slice, slice of pointers; every base type under up to two pointer/slice wrappers made with reflect.StructOf x 10 capture expressions - whatever Build accepts is parsed on 17 inputs), and a stateful lexer whose Pop rule can be reached with nothing to pop (the action failure must come back as a located participle.Error).",
 		Assumptions: []string{"for the two examples with Parseable/ParseTypeWith user code only the panic monitor and the AST-nil rule are applied", "exponential (grammar,input) pairs are skipped by the reference-cost guard for generated grammars; hangs on example grammars are decided by the child watchdog plus isolated re-run", "thrift/ebnf/generics examples are not included (thrift's test dependency is not cached; the others add nothing)"},
 		Batches:     func(t string) int { return pick(t, 4, 16) },
 		Floor:       func(t string) int { return pick(t, 3000, 30000) },
